@@ -607,9 +607,69 @@ Definition call_obj (S : sources) (o : fobj) (s : st) (mem : memarg) (zero : Qc)
 (* z ** -k *)
 Definition z_pow_neg (k : nat) : tfilt := TF [(Z.of_nat k, CNum 1)] [(0%Z, CNum 1)].
 
+(* ---- powers, and operators with the SAME filter object on both sides ---- *)
+Fixpoint qpow (q : Qc) (n : nat) : Qc := match n with O => 1 | Datatypes.S k => q * qpow q k end.
+
+(* Poly.__pow__ for an int n >= 0 *)
+Definition ppow (h : nat) (a : tdata) (n : nat) : bres tdata :=
+  match n with
+  | O => BOk [(0%Z, CNum 1)] h                                  (* Poly(1) *)
+  | Datatypes.S m =>
+      match a with
+      | [] => BOk [] h
+      | [(k, CNum q)] =>                                       (* one term: {k*n: v if v == 1 else v ** n} *)
+          BOk (tcompact coef_alg [((k * Z.of_nat n)%Z, CNum (if Qc_eqb q 1 then q else qpow q n))]) h
+      | [(k, CStr _)] => BErr BZeroDiv                         (* Stream ** n: not modelled (never generated) *)
+      | _ =>                (* reduce(mul, [self.copy() for unused in range(n - 1)] + [self]) : a copy per factor *)
+          let '(orig, copies, h1) :=
+            fold_left (fun (st : tdata * list tdata * nat) (_ : nat) =>
+                         let '(o, cs, hh) := st in
+                         let '(o', c, hh') := pcopy coef_alg hh o in (o', cs ++ [c], hh'))
+                      (seq 0 m) (a, [], h) in
+          match copies ++ [orig] with
+          | [] => BOk orig h1
+          | first :: rest =>
+              let r := fold_left (fun (acc : tdata * nat) nxt => pmul coef_alg (snd acc) (fst acc) nxt) rest (first, h1) in
+              BOk (fst r) (snd r)
+          end
+      end
+  end.
+
+(* ZFilter.__pow__ for an int n *)
+Definition fpow (h : nat) (f : tfilt) (n : Z) : bres tfilt :=
+  let go (h : nat) (f : tfilt) (k : nat) : bres tfilt :=
+    bbind (ppow h (t_num f) k) (fun nu h1 => bbind (ppow h1 (t_den f) k) (fun de h2 => mk_tfilt coef_alg h2 nu de)) in
+  if (n <? 0)%Z && (Nat.leb 2 (length (t_num f)) || Nat.leb 2 (length (t_den f)))
+  then bbind (mk_tfilt coef_alg h (t_den f) (t_num f)) (fun g h1 => go h1 g (Z.to_nat (- n)))
+  else if (n <? 0)%Z then
+    (* both Polys have one term: {k*n: v ** n} with a negative n *)
+    match t_num f, t_den f with
+    | [(k1, CNum q1)], [(k2, CNum q2)] =>
+        if Qc_eqb q1 0 || Qc_eqb q2 0 then BErr BZeroDiv
+        else mk_tfilt coef_alg h [((k1 * n)%Z, CNum (if Qc_eqb q1 1 then q1 else qpow (1 / q1) (Z.to_nat (- n))))]
+                                 [((k2 * n)%Z, CNum (if Qc_eqb q2 1 then q2 else qpow (1 / q2) (Z.to_nat (- n))))]
+    | _, _ => BErr BZeroDiv
+    end
+  else go h f (Z.to_nat n).
+
+(* filt op filt with the same object: the two sides hold the same Stream objects (an
+   iterator pulled from both sides); "==" on the two denominators is true (identity) *)
+Inductive selfop := SelfMul | SelfAdd | SelfSub | SelfDiv.
+Definition fself (h : nat) (f : tfilt) (o : selfop) : bres tfilt :=
+  match o with
+  | SelfMul => fmul coef_alg h f f
+  | SelfAdd => mk_tfilt coef_alg h (padd coef_alg (t_num f) (t_num f)) (t_den f)
+  | SelfSub => bbind (fneg coef_alg h f) (fun g h1 => mk_tfilt coef_alg h1 (padd coef_alg (t_num f) (t_num g)) (t_den f))
+  | SelfDiv => let '(n, h1) := pmul coef_alg h (t_num f) (t_den f) in
+               let '(d, h2) := pmul coef_alg h1 (t_den f) (t_num f) in
+               mk_tfilt coef_alg h2 n d
+  end.
+
 Inductive sstep :=
 | SCall (fuel : nat)                     (* out = filt(seq); take at most fuel items            *)
 | SShiftCall (k fuel : nat)              (* g = filt * z ** -k; out = g(seq); take ...          *)
+| SPowCall (n : Z) (fuel : nat)          (* g = filt ** n; out = g(seq); take ...               *)
+| SSelfCall (o : selfop) (fuel : nat)    (* g = filt o filt (one object); out = g(seq); ...     *)
 | SLook.                                 (* look at filt.numpoly / filt.denpoly                  *)
 
 Inductive sobs :=
@@ -625,6 +685,20 @@ Fixpoint session (S : sources) (steps : list sstep) (o : fobj) (s : st) (zero : 
       let '(res, o', s') := call_obj S o s MNone zero fuel in SRes res :: session S r o' s' zero
   | SShiftCall k fuel :: r =>
       match fmul coef_alg (o_h o) (o_f o) (z_pow_neg k) with
+      | BErr e => SRes (RBuild e) :: session S r o s zero
+      | BOk g h1 =>
+          let '(res, og, s') := call_obj S (FObj g h1) s MNone zero fuel in
+          SRes res :: session S r (FObj (o_f o) (o_h og)) s' zero
+      end
+  | SPowCall n fuel :: r =>
+      match fpow (o_h o) (o_f o) n with
+      | BErr e => SRes (RBuild e) :: session S r o s zero
+      | BOk g h1 =>
+          let '(res, og, s') := call_obj S (FObj g h1) s MNone zero fuel in
+          SRes res :: session S r (FObj (o_f o) (o_h og)) s' zero
+      end
+  | SSelfCall op fuel :: r =>
+      match fself (o_h o) (o_f o) op with
       | BErr e => SRes (RBuild e) :: session S r o s zero
       | BOk g h1 =>
           let '(res, og, s') := call_obj S (FObj g h1) s MNone zero fuel in
